@@ -16,7 +16,7 @@ func init() {
 		Rule: "one case = (packet of the C01 space, source: built through the API or decoded from its wire image, side that is mutated, one mutation); non-trivial = the packet has at least one of payload / CSRC / extension element",
 		Assumptions: []string{
 			"mutations: overwrite every payload byte; overwrite every CSRC entry; overwrite every byte of one extension value through the slice GetExtension returns; SetExtension of an existing id; SetExtension of a new id; DelExtension of the first / last id; overwrite of the decoded-from buffer; append within capacity to payload and CSRC; SetExtension of different new ids on both sides; each also from the start state in which every extension was deleted before cloning (empty list with spare capacity)",
-			"decoded packets whose extension block repeats an id (the decoder keeps both elements): one-byte and two-byte blocks of 2-4 elements over ids {1,2} x value lengths {1,2}; the clone is compared with the original directly (ids, values, serialisation) and then changed",
+			"with the mutation that changes both sides, the original may be a receiver that decoded another packet (three extensions, four CSRC entries) before; decoded packets whose extension block repeats an id (the decoder keeps both elements): one-byte and two-byte blocks of 2-4 elements over ids {1,2} x value lengths {1,2}; the clone is compared with the original directly (ids, values, serialisation) and then changed",
 			"packet space: C01 quick space (quick) / C01 thorough space (thorough), plus the many-element / large packets of C01",
 		},
 		Scenarios: []mc.Scenario{
@@ -91,6 +91,12 @@ func c20Run(c *mc.Ctx) {
 		}
 		wire = b
 		q := &rtp.Packet{}
+		if mut == 10 && c.Bool() {
+			// a receiver that was used before: it decoded a packet with three extensions and four
+			// CSRC entries first (what it keeps of them - spare capacity - must not tie the clone
+			// to the original)
+			_ = q.Unmarshal([]byte{0x94, 0x60, 0, 9, 0, 0, 0, 8, 0, 0, 0, 7, 0, 0, 0, 1, 0, 0, 0, 2, 0, 0, 0, 3, 0, 0, 0, 4, 0xBE, 0xDE, 0, 2, 0x10, 0xD1, 0x20, 0xD2, 0x30, 0xD3, 0, 0, 0x77})
+		}
 		if err := q.Unmarshal(wire); err != nil {
 			c.Failf("unmarshal-own-output", "%s: %v", describeWire(w), err)
 		}
@@ -183,7 +189,7 @@ func c20Run(c *mc.Ctx) {
 		scribble(wire)
 	case 10:
 		// both sides add an extension of their own: neither may see the other's
-		if !w.X || !w.Is8285() || len(elems) > 2 {
+		if w.X && (!w.Is8285() || len(elems) > 2) {
 			return
 		}
 		name = "SetExtension(3) on one side, then SetExtension(4) on the other"
